@@ -14,6 +14,17 @@ META = {
 
 def run(ctx):
     drv = ctx.build("c26")
+    # MC + R: TLC runs the specification machine on every enumerated program / pre-state /
+    # transaction, checks the sanity invariants on every state and prints each finished case
+    fams = ["sstore", "seq2", "call", "tx"] + (["seq"] if ctx.thorough else [])
+    for fam in fams:
+        res = ctx.model_check("evm/MCMiniEVM", "evm/MCMiniEVM-" + fam, workers=4, tags=("CASE",), timeout=7200, name="MCMiniEVM-" + fam)
+        cases = res.lines.get("CASE", [])
+        if not cases:
+            raise Exception("no cases emitted for family " + fam)
+        cp = os.path.join(ctx.scratch, "cases-%s.json" % fam)
+        write_json(cp, cases)
+        ctx.drive(drv, ["-mode", "replay", "-in", cp], name="c26-replay-" + fam, timeout=3600)
     # V: recorded executions of the real EVM validated instruction by instruction
     chunks = ctx.pick(1, 5)
     for c in range(chunks):
@@ -24,6 +35,6 @@ def run(ctx):
         if not ok:
             ctx.reject_trace("evm/MiniEVMTrace", tp, consumed, r)
             break
-    return ctx.finish(rule="V: every generated transaction = one trace (tx, enter/opc/exit events, txend with post-state)",
+    return ctx.finish(rule="MC+R: every case of the families sstore/seq/call/tx computed by TLC and replayed; V: every generated transaction = one trace (tx, enter/opc/exit events, txend with post-state)",
                       assumptions=["word values < 2^30 exact, larger values as identity tokens", "gas limits <= 4.2M",
                                    "no EIP-7702 delegations, blobs, system calls"])
